@@ -8,7 +8,10 @@ appears, NXT profile in the packet body always / every k / random / bursty, NXT 
 Workload (one case = one session of 15-40 UTMI packets): lengths 1-70 (1 = handshake, 3, 64/65, long zero-filled
 "chirp" packets in NOPID mode), first bytes with every PID nibble and an arbitrary high nibble, op modes 0b00 (normal) and
 0b10 (bit-stuffing disabled; in (b) selected through the real register write, the bench waits for it before transmitting),
-packet gaps down to a single cycle, the UTMI side moving to the next byte in the cycle after `tx_ready` exactly like a
+packet gaps down to a single cycle, in (a) op_mode changing in the very cycle tx_valid rises and back-to-back packets
+(tx_valid low for the STP cycle only) in alternating op modes -- TXCMD kind and STP data of a packet must both follow the
+op_mode presented from the cycle tx_valid rose (op_mode is held during a packet; in (b) this cannot be generated as long
+as the C24 finding regwrite_started_while_txcmd_pending is open: it dead-locks), the UTMI side moving to the next byte in the cycle after `tx_ready` exactly like a
 synchronous UTMI transmitter, PHY-originated DIR activity (RxCmd updates, whole receive packets, DIR+NXT starts) placed
 -4..+5 cycles around the start of the transmission (the TXCMD is then aborted and has to be presented again) and right
 behind the STP, in (a) the "other bus user busy" input held across the start of a transmission.
@@ -43,7 +46,8 @@ RULE = ("case = session of 15-40 UTMI transmit packets (length 1-70, PID nibble 
 REQUIRED_BINS = ["dut_bare", "dut_translator", "mode_normal", "mode_nopid", "mode_other", "len_1", "len_2", "len_ge_64", "nopid_zero_filled",
                  "nxt_always", "nxt_throttled", "cmd_latency_0", "cmd_latency_ge_3", "txcmd_aborted_by_dir", "dirnxt_while_txcmd_pending",
                  "rx_activity_right_after_stp", "nxt_high_in_stp_cycle", "nxt_low_in_stp_cycle", "gap_1_cycle", "first_byte_high_nibble_not_complement",
-                 "other_bus_user_busy_at_start", "opmode_regwrite_before_tx", "nxt_low_right_after_txcmd"]
+                 "other_bus_user_busy_at_start", "opmode_regwrite_before_tx", "nxt_low_right_after_txcmd",
+                 "opmode_change_on_tx_valid_rise", "back_to_back_alternating_modes"]
 REQUIRED_EVENTS = ["utmi_packets", "phy_packets_compared", "utmi_bytes_accepted", "phy_bytes_consumed", "stp_checked",
                    "accept_cycles_compared", "dir_high_cycles_checked"]
 ASSUMPTIONS = ["in op modes 0b01 and 0b11 the choice PID/NOPID and the STP data are not judged", "UTMI transmitter holds tx_data until tx_ready and drops tx_valid in the cycle after the last accepted byte",
@@ -162,11 +166,13 @@ def _run_case(rng, tier, res):
         return act_receive(rng, [rng.randrange(256) for _ in range(n)], start=start, status=0x0D, gap_profile=rng.choice(["none", ("random", 0.3)]),
                            end=rng.choice(["dir", "rxcmd"]), garbage=phy.garbage), start
 
-    def send(data, nopid, op):
+    def send(data, nopid, op, set_op=False):
         rec = {"data": list(data), "nopid": nopid, "op": op, "start": b.cycle + 1, "accepts": [], "end": None}
         sent.append(rec)
         res.event("utmi_packets")
         i = 0
+        if set_op:
+            b.set(dut.op_mode, op)          # the operating mode changes in the very cycle tx_valid rises
         b.set(dut.tx_valid, 1)
         b.set(dut.tx_data, data[0])
         budget = 400 + 12 * len(data)
@@ -205,10 +211,15 @@ def _run_case(rng, tier, res):
         mode_run = 0
         for p in range(n_pkts):
             # op mode for this packet
+            op_on_rise = False
             if mode_run <= 0:
                 new_op = rng.choice([0, 0, 0, 2, 2, 1, 3])
                 mode_run = rng.randint(1, 6)
-                if new_op != op:
+                if new_op != op and bare and rng.random() < 0.5:
+                    op = new_op
+                    op_on_rise = True
+                    res.bin("opmode_change_on_tx_valid_rise")
+                elif new_op != op:
                     op = new_op
                     b.set(dut.op_mode, op)
                     if not bare:
@@ -263,9 +274,23 @@ def _run_case(rng, tier, res):
             res.sig(p, nopid, tuple(data))
             if len(res.desc["packets"]) < 6:
                 res.desc["packets"].append({"nopid": nopid, "data": bytes(data[:16]).hex(), "len": len(data)})
-            yield from send(data, nopid, op)
+            yield from send(data, nopid, op, set_op=op_on_rise)
             if st.get("dead"):
                 return
+            while bare and rng.random() < 0.35:
+                # back-to-back: tx_valid is low for exactly one cycle (the STP cycle of the previous packet), the next packet is
+                # in the other operating mode and op_mode changes in the cycle tx_valid rises again
+                yield
+                op = rng.choice([m for m in (0, 2, 0, 2, 1, 3) if m != op])
+                nopid = (op == 2)
+                res.bin("mode_nopid" if nopid else "mode_normal" if op == 0 else "mode_other")
+                res.bin("back_to_back_alternating_modes")
+                res.bin("opmode_change_on_tx_valid_rise")
+                data = make_packet(rng, res, nopid)
+                res.sig("b2b", op, tuple(data))
+                yield from send(data, nopid, op, set_op=True)
+                if st.get("dead"):
+                    return
             gap = rng.choice([1, 1, 2, 3, 5, rng.randint(1, 30)])
             if gap == 1:
                 res.bin("gap_1_cycle")
